@@ -181,7 +181,7 @@ def r2_holdout(ctx, fq, plate_balanced):
     N = Norm(strict=False)
     sel = []
     for s in sites:
-        p = common.prov(s.kw["treatment_names"], {})
+        p = common.prov(s.kw["treatment_names"], env)
         ctx.need(p[0] == "sel" and p[1] == S, f"{s.site}: treatment_names is not a row selection of `{S}`")
         sel.append(resolve_selector(ast.parse(p[3], mode="eval").body, env))
     pair_ok = sel[0][0] == sel[1][0] and {sel[0][1], sel[1][1]} == {True, False} and sel[0][0].isidentifier()
